@@ -547,7 +547,13 @@ pub fn field_fault(img: &mut Img, kind: usize) -> &'static str {
             if tape::f("edit.partitions_or_nonce", 2) == 0 {
                 img.fri_partitions = interesting_u8(img.fri_partitions);
             } else {
-                img.pow_nonce ^= 1 << tape::f("edit.nonce_bit", 64);
+                // single-bit edits, and shifts by a field modulus (an integer absorbed into a
+                // field-based hasher must not be reduced modulo the field prime)
+                match tape::f("edit.nonce_kind", 4) {
+                    0 => img.pow_nonce = img.pow_nonce.wrapping_add(0xFFFF_FFFF_0000_0001),
+                    1 => img.pow_nonce = img.pow_nonce.wrapping_add(4611624995532046337),
+                    _ => img.pow_nonce ^= 1 << tape::f("edit.nonce_bit", 64),
+                }
             }
         },
     }
